@@ -603,6 +603,10 @@ func newWalked(siz int) *Walked {
 	if max < siz {
 		siz = max
 	}
+	if siz < 0 {
+		// A negative limit allows no step (just like zero).
+		siz = 0
+	}
 	return &Walked{
 		Strides: make([]*Stride, 0, siz),
 	}
